@@ -629,6 +629,12 @@ func writeReplay(vdir, prop string, o *Oblig, env *Env, repo string, u *Unit) re
 			rr = runReplayTest(repo, src)
 		}
 	}
+	if !rr.Attempted && o.Result != "unsat" && u != nil {
+		// generic driver: scalar parameters, receiver built from the model's scalar fields
+		if src, ok := flatReplayTest(env, u, o); ok {
+			rr = runReplayTest(repo, src)
+		}
+	}
 	if o.Kind == "bounded" {
 		src, _ := os.ReadFile(filepath.Join(vdir, "bounded", strings.TrimPrefix(o.Name, "bounded:")))
 		rr = replayResult{Attempted: true, Reproduced: true, Test: string(src), Extra: []string{"-run", "^TestVerifBounded$", "-v"}, Output: o.Output,
